@@ -231,8 +231,14 @@ class Check:
         self.exhaustive = False
         self.theorems = []
         self.broken = []       # names of theorems / streams that no longer check
-        kf = json.loads((ROOT / 'known_findings.json').read_text()) if (ROOT / 'known_findings.json').exists() else {}
-        self.known = {f['key']: f for f in kf.get('findings', []) if f['property'] == pid}
+        self.known = {}
+        kfiles = [ROOT / 'known_findings.json'] + sorted((ROOT / 'known_findings.d').glob('*.json'))
+        for kfp in kfiles:
+            if kfp.exists():
+                kf = json.loads(kfp.read_text())
+                for f in kf.get('findings', []):
+                    if f['property'] == pid:
+                        self.known[f['key']] = f
 
     # ---------------------------------------------------------------- logging
     def log(self, *a):
